@@ -33,12 +33,12 @@ impl uv::PacketSink for CountSink {
     }
 }
 
-struct Snapshot {
-    rx_frame_base: u32,
-    rx_packet_base: u32,
-    tx_frame: (u32, u32),
-    tx_packet: (u32, u32),
-    window: u32,
+pub struct Snapshot {
+    pub rx_frame_base: u32,
+    pub rx_packet_base: u32,
+    pub tx_frame: (u32, u32),
+    pub tx_packet: (u32, u32),
+    pub window: u32,
 }
 
 fn around(rng: &mut Rng, anchors: &[u32], w: u32) -> u32 {
@@ -172,7 +172,7 @@ fn pattern_frame(rng: &mut Rng, s: &Snapshot, next_in_order: &mut u32, profile: 
     }
 }
 
-fn hostile_frame(rng: &mut Rng, s: &Snapshot, next_in_order: &mut u32, captured: &[Vec<u8>], big_claims: bool, class: &mut &'static str) -> Vec<u8> {
+pub fn hostile_frame(rng: &mut Rng, s: &Snapshot, next_in_order: &mut u32, captured: &[Vec<u8>], big_claims: bool, class: &mut &'static str) -> Vec<u8> {
     match rng.below(20) {
         0..=8 => {
             // data frame; mostly with a frame id the victim will accept
